@@ -75,7 +75,7 @@ KEYWORDS = ["if", "class", "from", "None", "True", "False", "def", "lambda",
             "import", "match", "case", "print", "async", "not", "is", "in"]
 ESCAPES = ["Xquestion_markX", "XU1fX", "XhyphenHminusX", "XpizzazzX", "XsquidX",
            "XU110000X", "XUffffffffffX", "X_X", "XX", "XUX", "XHX", "Xlatin_capital_letter_xX",
-           "hyx_", "hyx_X", "XUd800X", "Xfull_stopX", "XlowHlineX", "Xlow_lineX"]
+           "hyx_", "hyx-", "hyx_X", "XUd800X", "Xfull_stopX", "XlowHlineX", "Xlow_lineX"]
 UNDERSCORES = ["_", "__", "\ufe33", "\ufe34", "\ufe4d", "\ufe4e", "\ufe4f", "\uff3f"]
 HYPHENS = ["-", "--", "-_", "_-", "\u2010", "\u2013", "\uff0d", "\u2212", "\ufe63"]
 # identifier characters that NFKC changes (several create an ASCII X, h, y, x, _ or digits)
